@@ -22,7 +22,7 @@ for p in props:
         "engine": "govc",
         "level_claimed": {"category": "proof", "text": c["text"], "design_ref": c.get("design_ref", "DESIGN.md section 4 " + p)},
         "level_note": c["note"],
-        "technique": TECH,
+        "technique": c.get("technique", TECH),
     })
 m = {
     "version": 1,
